@@ -72,7 +72,7 @@ def check(run):
     R = run
     R.rule('C05.shared', 'objects created once per class / per function definition (class-level attributes, parameter '
            'defaults) are only read: no buffer, validator, poll object, header list or option dict is shared between '
-           'connections', 2)
+           'connections', 1)
     from .common import shared_state
     shared_state(R, 'C05.shared')
     R.rule('C05.dfa', 'validator table + transition expression induce a DFA equivalent (reject/accept status of '
@@ -549,20 +549,21 @@ def route(R, RID='C05.route'):
     f2 = R.func(q2)
     rets = [n for n in g2.live_nodes() if n.kind == 'stmt' and isinstance(n.ast, ast.Return)]
     val_rets = []
+    from .common import value_cases as _vc
     for r in rets:
-        v = r.ast.value
-        if isinstance(v, ast.Call) and any(t.kind == 'ctor' and t.cls == 'parser._ReadUtf8'
-                                           for t in R.types.call_targets(v, g2.ctx)):
-            val_rets.append(r)
-        else:
-            gs = guards_of(g2, r)
-            ok = any(txt == 'self._compression' and pol for (txt, pol, _) in gs)
-            R.ob(RID, 'non-validating text read only under compression', ok,
-                 'read_text returns a non-validating reader without compression being enabled', func=f2, node=r.ast)
+        # the returned reader by cases (if/else statements and conditional expressions alike)
+        for (conds, v, site) in _vc(R, g2, r, r.ast.value):
+            if isinstance(v, ast.Call) and any(t.kind == 'ctor' and t.cls == 'parser._ReadUtf8'
+                                               for t in R.types.call_targets(v, g2.ctx)):
+                val_rets.append((r, v))
+            else:
+                gs = {(txt, pol) for (txt, pol, _) in guards_of(g2, r)} | set(conds)
+                ok = ('self._compression', True) in gs
+                R.ob(RID, 'non-validating text read only under compression', ok,
+                     'read_text returns a non-validating reader without compression being enabled', func=f2, node=r.ast)
     R.ob(RID, 'read_text has a validating arm', len(val_rets) >= 1, 'read_text never returns a validating '
          'reader', func=f2, node=f2.node, construct='read_text validating arm')
-    for r in val_rets:
-        v = r.ast.value
+    for (r, v) in val_rets:
         cf = R.func('parser._ReadUtf8.__init__')
         a = None
         for kw in v.keywords:
